@@ -584,7 +584,7 @@ func (r *Runner) onHook(c *Case, name string, arg any) {
 		}
 	case "dagsched.launch":
 		r.launchedIter++
-		r.maybeStopAt("launch")
+		r.maybeStopAt("launch", hookStep(arg))
 	case "dagsched.worker.beforeExec":
 		r.maybeStopAt("worker.beforeExec", hookStep(arg))
 	case "dagsched.retry.wait":
